@@ -159,6 +159,9 @@ func (h *H) pointsWithSpecialX(n int) [][2]*big.Int {
 		xs = append(xs, big.NewInt(v))
 	}
 	xs = append(xs, new(big.Int).Sub(curveP, big.NewInt(3)), new(big.Int).Sub(curveP, big.NewInt(int64(1+h.rng.Intn(1<<20)))))
+	// abscissas in [N, P): valid field elements that are not canonical scalars
+	xs = append(xs, new(big.Int).Set(curveN), new(big.Int).Add(curveN, big.NewInt(int64(1+h.rng.Intn(1000)))),
+		new(big.Int).Sub(curveN, big.NewInt(1)), new(big.Int).Add(curveN, new(big.Int).Rand(h.rng, new(big.Int).Sub(curveP, curveN))))
 	for i := 0; i < n; i++ {
 		x := new(big.Int).SetBytes(h.randBytes(32))
 		lo := uint(26 * h.rng.Intn(9))
